@@ -17,7 +17,23 @@ def main(argv):
         path = argv[argv.index("--replay") + 1]
         payload = json.load(open(path))
         return mod.replay(payload)
-    return mod.run(tier, seed)
+    try:
+        return mod.run(tier, seed)
+    except Exception as ex:     # the implementation (or the harness) raised where no exception was expected
+        import traceback
+        import common
+        tb = traceback.format_exc()
+        frames = [f for f in traceback.extract_tb(ex.__traceback__) if "/nflows/" in f.filename]
+        where = "%s:%s" % (frames[-1].filename.split("/nflows/")[-1], frames[-1].name) if frames else "harness"
+        ck = common.CURRENT
+        if ck is None:
+            print(tb)
+            print("VIOLATION property=%s replay=none no-failing-input-found" % pid)
+            return 1
+        ck.finding("unexpected-exception:%s:%s" % (type(ex).__name__, where),
+                   "the search stopped on an exception raised at %s: %s" % (where, str(ex)[:200]),
+                   {"search": "exception", "traceback": tb[-3000:]})
+        return ck.finish()
 
 
 if __name__ == "__main__":
